@@ -227,7 +227,7 @@ exec_c16(const vcase *vc)
 	W.maxframe = (size_t) vop_arg(&vc->ops[1], 2, 0);
 	W.sendmax  = (size_t) vop_arg(&vc->ops[1], 3, 0);
 	int hs     = (int) vop_arg(&vc->ops[2], 0, 0);
-	if (hs < 0 || hs > 7)
+	if (hs < 0 || hs > 11)
 		return 0;
 	for (int i = 3; i < vc->nops; i++)
 		if (strcmp(vc->ops[i].name, "seg") == 0)
@@ -275,7 +275,10 @@ exec_c16(const vcase *vc)
 		if (hs != 3)
 			req += "Sec-WebSocket-Key: " + key + "\r\n";
 		req += hs == 2 ? "Sec-WebSocket-Version: 12\r\n" : "Sec-WebSocket-Version: 13\r\n";
-		req += hs == 4 ? "Sec-WebSocket-Protocol: rep.sp.nanomsg.org\r\n" : "Sec-WebSocket-Protocol: pair.sp.nanomsg.org\r\n";
+		// (round 7, variants 8-11: a sub-protocol that is a strict prefix / extension of the listener's own is a different protocol)
+		static const char *kNear[] = {"pair.sp.nanomsg.or", "pair.sp", "p", "pair.sp.nanomsg.org2"};
+		req += hs >= 8 ? std::string("Sec-WebSocket-Protocol: ") + kNear[hs - 8] + "\r\n"
+		               : hs == 4 ? "Sec-WebSocket-Protocol: rep.sp.nanomsg.org\r\n" : "Sec-WebSocket-Protocol: pair.sp.nanomsg.org\r\n";
 		if (hs == 7)
 			req += "Content-Length: 0\r\n";
 		req += "\r\n";
@@ -593,7 +596,7 @@ gen_c16()
 	int mode = *pbt::welem<int>({{4, 0}, {2, 1}, {1, 2}, {1, 3}});
 	t << "cfg " << *pbt::range<int>(1, 1000000) << " " << mode << " " << (mode == 3 ? *gen::element(5, 20, 50) : *gen::element(10, 30, 60)) << " " << *pbt::range<int>(0, 3) << " " << (mode == 3 ? *gen::element(60, 150, 400) : 600) << " 0\n";
 	t << "world " << *pbt::range<int>(0, 1) << " " << *gen::element(0, 0, 100, 1000, 70000) << " " << *gen::element(0, 0, 64, 5000) << " " << *gen::element(0, 0, 1, 100, 125, 126, 65535, 65536) << "\n";
-	t << "hs " << *pbt::welem<int>({{10, 0}, {1, 1}, {1, 2}, {1, 3}, {1, 4}, {1, 5}, {1, 6}, {1, 7}}) << "\n";
+	t << "hs " << *pbt::welem<int>({{10, 0}, {1, 1}, {1, 2}, {1, 3}, {1, 4}, {1, 5}, {1, 6}, {1, 7}, {1, 8}, {1, 9}, {1, 10}, {1, 11}}) << "\n";
 	if (*pbt::welem<int>({{1, 0}, {4, 1}})) {
 		auto seg = *gen::container<std::vector<int>>(gen::element(1, 1, 2, 3, 5, 7, 16, 17, 60, 125, 126, 1000, 65536));
 		if (!seg.empty()) {
